@@ -37,7 +37,7 @@ class Run:
         self.errors = []  # (key, detail) lock-step disagreements
 
 
-def execute(cfg, ops, seed, top, snapshot_rejects=False, after_each=None):
+def execute(cfg, ops, seed, top, snapshot_rejects=False, after_each=None, sparse_getters=False):
     """Run `ops` (see rf.py) on channel <top>/<ch>.  The model is stepped alongside.
     Lock-step disagreements (accept/reject, return value) are recorded in run.errors."""
     import digital_rf as drf
@@ -87,7 +87,10 @@ def execute(cfg, ops, seed, top, snapshot_rejects=False, after_each=None):
             reason = model.check_blocks(g, b, length) if op[0] != "raw" else None
             rec["expect_reject"] = reason
             arr = rf.values_for(cur_cfg, seed, g, b, length)
-            before = rf.getters(w)
+            # sparse mode: the getters are only queried around the first call, as a monitoring loop that
+            # looked once and never again would (values cached inside the writer must not go stale)
+            ask = (not sparse_getters) or i == 0
+            before = rf.getters(w) if ask else None
             dig0 = dir_digest(chdir) if (snapshot_rejects and reason) else None
             try:
                 ret = rf.do_write(w, cur_cfg, seed, op, model.cursor, arr)
@@ -97,7 +100,7 @@ def execute(cfg, ops, seed, top, snapshot_rejects=False, after_each=None):
                 rec["status"] = "exc"
                 rec["exc"] = type(e).__name__
             rec["getters_before"] = before
-            rec["getters"] = rf.getters(w)
+            rec["getters"] = rf.getters(w) if ask else None
             if reason:
                 if rec["status"] == "ok":
                     run.errors.append(({"class": "invalid_write_accepted", "reason": reason},
@@ -120,8 +123,13 @@ def execute(cfg, ops, seed, top, snapshot_rejects=False, after_each=None):
         run.records.append(rec)
         if after_each is not None:
             after_each(run, i, rec, w)
+    run.after_close = None
     if w is not None:
         w.close()
+        if model.open:
+            # what the writer reports once it has been closed (the getters must stay available)
+            run.after_close = (rf.getters(w), model.cursor, model.total_written, model.total_gap, model.last_abs,
+                               any(r.get("blocked") is not None for r in run.records))
         model.close_session()
     run.writer = w
     return run
@@ -263,6 +271,10 @@ def oracle_counters(run):
         if rec.get("blocked") is not None:
             break  # state after a refused finalized-period entry is not claimed
         g = rec["getters"]
+        if g is None:
+            if rec["status"] == "ok" and not rec.get("expect_reject") and rec.get("ret") != rec["model"][0]:
+                out.append(({"class": "return_value"}, "op %d %r returned %r model %r" % (i, rec["op"], rec.get("ret"), rec["model"][0])))
+            continue
         if rec["status"] == "exc" or rec.get("expect_reject"):
             if rec["status"] == "exc" and g != rec["getters_before"]:
                 out.append(({"class": "getters_changed_by_rejected_call"},
@@ -283,6 +295,19 @@ def oracle_counters(run):
             if gf != want_file or gd != want_dir:
                 out.append(({"class": "last_file_dir"}, "op %d %r last file %r dir %r model %r"
                             % (i, rec["op"], g[3], g[4], want_file)))
+    ac = getattr(run, "after_close", None)
+    if ac is not None and not ac[5]:
+        g, cur, tot, gap, last_abs, _ = ac
+        if (g[0], g[1], g[2]) != (cur, tot, gap):
+            out.append(({"class": "counters_after_close"}, "after close getters %r model %r" % (g[:3], (cur, tot, gap))))
+        if last_abs is not None:
+            rel = rf.file_relpath(last_abs, run.model.cfg or cfg)
+            want_file = os.path.normpath(os.path.join(run.chdir, rel))
+            gf = os.path.normpath(g[3]) if g[3] else g[3]
+            gd = os.path.normpath(g[4]) if g[4] else g[4]
+            if gf != want_file or gd != os.path.normpath(os.path.dirname(want_file)):
+                out.append(({"class": "last_file_dir_after_close"}, "after close last file %r dir %r, most recently written sample is in %r"
+                            % (g[3], g[4], want_file)))
     return out
 
 
